@@ -418,7 +418,7 @@ augment.  Ingredients: the start (`conversion_forest_built` in Props/C12Conv.lea
 is `Built.init` and every pending augment meets the premise of `graft`), each augment step
 (`augmentStep_is_graft`), the `FixChoice` step (constructor `fix` with `fixChoice_preserves`), the
 theorem that gives the namespaces of any `Built` forest (`namespace_placedBy`), and — in the bridge —
-the threading through `augmentLoop` / `augmentPass` / the leftover pass with the three steps `Built` has
+the threading through `augmentLoop` / `augmentPass` / the retry rounds / the reporting sweep with the three steps `Built` has
 no constructor for: error recording on a root (absent on an error-free run: such errors stay), storing a
 tree back unchanged, and `Find` creating an absent rpc input / output (commuted back to the conversion:
 `C12Bridge.builtU_closed_implicit`).  With `Built'` for `Built` the statement holds for every input
